@@ -325,7 +325,7 @@ class LoadedWorld:
                 setattr(a, bn, b)
         for mod in world["modules"]:
             name = mod["name"]
-            code = compile(mod["src"], f"<{name}>", "exec")
+            code = compile(mod["src"], f"<{name}>", "exec", dont_inherit=True)
             exec(code, self.modules[name].__dict__)
             for d in mod["decls"]:
                 self.decls[(name, d["n"])] = d
